@@ -1,2 +1,53 @@
 //! Kani harnesses for unit zone_file (see /verif/notes/AGENT-BRIEF.md for naming: full_*, bnd_*, cex_*).
+//! Property C24: the zone-file parser over ARBITRARY input octets (bounded length) terminates
+//! without panicking, stops after its first error, and yields only valid records.
 #![allow(unused_imports, dead_code)]
+
+use std::io::Cursor;
+
+use crate::rr::Type;
+use crate::zone_file::{LineContent, Parser};
+
+/// Runs the real `Parser` over `N` symbolic octets.  Every yielded line consumes at least one
+/// octet, so at most `N` lines can be produced before `None`; `N + 2` calls are made.
+/// Checked: no panic/overflow/OOB anywhere (Kani's built-in checks on the real tokenizer and
+/// parsers), the error latch, permitted type, absolute owner, `Rdata::validate` accepts.
+fn drive<const N: usize>() {
+    let bytes: [u8; N] = kani::any();
+    let mut parser = Parser::new(Cursor::new(&bytes[..]));
+    let mut errored = false;
+    let mut k = 0;
+    while k < N + 2 {
+        match parser.next() {
+            None => {}
+            Some(Ok(line)) => {
+                assert!(!errored, "a line was yielded after an error");
+                if let LineContent::Record(rr) = line.content {
+                    assert!(rr.rr_type != Type::NULL && rr.rr_type != Type::OPT && rr.rr_type != Type::TSIG);
+                    assert!(rr.rdata.validate(rr.class, rr.rr_type).is_ok());
+                    let w = rr.owner.wire_repr();
+                    assert!(w.len() >= 1 && w[w.len() - 1] == 0);
+                }
+            }
+            Some(Err(_)) => {
+                assert!(!errored, "a second error was yielded");
+                errored = true;
+            }
+        }
+        k += 1;
+    }
+}
+
+/// BOUNDED: all inputs of exactly 3 octets.
+#[kani::proof]
+#[kani::unwind(12)]
+pub(crate) fn bnd_zone_file_parser_3() {
+    drive::<3>();
+}
+
+/// BOUNDED: all inputs of exactly 6 octets.
+#[kani::proof]
+#[kani::unwind(16)]
+pub(crate) fn bnd_zone_file_parser_6() {
+    drive::<6>();
+}
